@@ -13,6 +13,7 @@ from concurrent.futures import ThreadPoolExecutor
 import gen_sem
 import vlib
 import scope_corr
+import rules_corr
 from vlib import hexs
 
 NEED_BIN = True
@@ -24,8 +25,12 @@ MANIFEST_ENTRY = {
             "multiset returned by the declaration sort and the duplicate scans are invariant under permutation (files are "
             "concatenated, so partition, file order and HashMap seeds are permutations). For the declared-variable rule (scope-stack "
             "model, compared with the rule on the resolved library) the verdict is the same for every order of the units and, with "
-            "one faulty unit, so are the name and place reported. That the other rules and transforms "
-            "have the table shape is NOT proved; it is tied by enumerating all permutations of generated valid and single-fault units "
+            "one faulty unit, so are the name and place reported. For the rules on declarations, invocations and configurations "
+            "(models compared with the rule modules on the facts of the resolved library): per-declaration rules give the same "
+            "diagnostics (code and place) as a multiset for every order of the units; the constant rules' verdict is a statement "
+            "about the set of declarations; with distinct enumeration / function block names the enumerated-value and invocation "
+            "rules' verdict is the same for every order. The transforms (late-bound resolution) are NOT modelled; the whole pipeline "
+            "is tied by enumerating all permutations of generated valid and single-fault units "
             "(up to 4 declarations quick / 5 thorough), all partitions into <= 3 files, all argument orders, and by running the "
             "real binary repeatedly (fresh hash seeds), comparing verdict, code and the identifier the diagnostic points at.",
     "note": "Trusted: Coq kernel, harness ops analyze / project, the binary runner. HashMap RandomState can only be observed by "
@@ -34,7 +39,7 @@ MANIFEST_ENTRY = {
 TRUSTED = [
     "Coq 8.16.1 kernel; vm_compute only in the Example",
     "no axioms: every theorem of Properties/C06.v is closed under the global context",
-    "the analyzer's rules are not modelled one by one: their table shape is tied by the permutation / partition / run search",
+    "the rule modules are modelled by hand on the facts the harness extracts (Model/Rules.v), validated by correspondence with each module run alone; the transforms are tied only by the permutation / partition / run search",
 ]
 ASSUMPTIONS = ["positions are compared as the spelling at the reported span (byte offsets move when declarations move)"]
 
@@ -116,6 +121,8 @@ def search(run, info):
     # the scope walk of the declared-variable rule against its Coq model, on a sample of the orders and partitions
     step = max(1, len(cases) // (400 if run.tier == "quick" else 4000))
     sc_n, sc_bad = scope_corr.check(run, [[(f[0], c["_texts"][f[0]]) for f in c["files"]] for c in cases[::step]], info, "c06")
+    # ... and the other rule visitors against their Coq models (facts of the resolved library), on the same sample
+    rl_n, rl_bad = rules_corr.check(run, [[(f[0], c["_texts"][f[0]]) for f in c["files"]] for c in cases[::step]], info, "c06")
     for gi, (kind, code, decls, idxs) in enumerate(groups):
         obs = {}
         for ci in idxs:
